@@ -5,6 +5,8 @@ CONSTANTS McDepth = 2
           GenDepth = 3
           GenChainCfgName = "chain"
           GenChainOps = 3
+          GenFuncCfgName = "c3"
+          GenLenOps = 3
           GenPtr = TRUE
           SimMinDepth = 4
           SimMaxDepth = 4
